@@ -84,11 +84,19 @@ Section Refine.
     now rewrite W.
   Qed.
 
-  Lemma new_zero : forall (a : list T) r c, r = 0 \/ c = 0 -> new a (Z.of_nat r) (Z.of_nat c) = None.
+  (** a zero dimension is refused, the request 0 x 0 on empty data apart (repaired [reshape_mut]) *)
+  Lemma new_zero : forall (a : list T) r c, r = 0 \/ c = 0 -> ~ (r = 0 /\ c = 0 /\ a = []) ->
+    new a (Z.of_nat r) (Z.of_nat c) = None.
   Proof.
-    intros a r c H. rewrite new_want. unfold want_shape.
-    destruct H; subst; zb; reflexivity.
+    intros a r c H Hn. rewrite new_want. unfold want_shape.
+    destruct H; subst; zb; try reflexivity.
+    all: destruct (Nat.eqb_spec (length a) 0) as [E|E]; [|reflexivity].
+    all: exfalso; apply Hn; repeat split; try lia.
+    all: destruct a; [reflexivity|discriminate E].
   Qed.
+
+  Lemma new_empty : new (@nil T) 0 0 = Some (mkMat 0 0 []).
+  Proof. reflexivity. Qed.
 
   Lemma reshape_want : forall (m : mat) r c, Inv m ->
     reshape m r c = option_map (mk (data m)) (want_shape (size m) r c).
@@ -134,7 +142,9 @@ Section Refine.
       + destruct (Z.eqb_spec r (-1)); cbn [andb]; zb; reflexivity.
       + destruct (Z.eqb_spec r (-1)); [lia|]. cbn [andb]. destruct (Z.ltb_spec c 0).
         * destruct (Z.eqb_spec c (-1)); cbn [andb]; zb; reflexivity.
-        * destruct (Z.eqb_spec c (-1)); [lia|]. zb; reflexivity.
+        * destruct (Z.eqb_spec c (-1)); [lia|]. zb; try reflexivity.
+          subst r c. rewrite new_want, <- L. unfold want_shape. cbn [Z.ltb Z.eqb Z.compare andb].
+          destruct (Nat.eqb_spec sz 0); [lia|reflexivity].
   Qed.
 
   (** ** what a well-formed state denotes *)
